@@ -54,7 +54,7 @@ not-recorded: the build-log entries of the failed statement's outputs are what t
 times as for every build.  The builds that FOLLOW are compared like every build: there the listed finding
 id=failed-cmd-rewrote-output (garbage validated by an old log entry, "no work to do") has to show up identically on
 both sides, and does.  selfcheck uses the model's own taint_safe verdict (C01F_history: accepted, not failed,
-taint_safe => everything needed is clean).  Graphs of fault histories get no input-less phony statement.
+taint_safe => everything needed is clean).  
 
 THE BUILD LOOP that is run is HistFaithful.build_f (HistDepsFaithful.dbuild_f for recorded deps): Plan::CleanNode and the
 restat loop of FinishCommand followed literally.  HistDefs.build (dirty_now: a fresh scan per statement) was found by this
@@ -63,8 +63,9 @@ deps statement with a missing hidden source -- when that statement is `restat` a
 HistRun.ExAlwaysRestat, HistFaithful.ExF, HistDepsFaithful.ExDF; build_f = build under no_inputless_phony:
 HistFaithfulProofs.build_f_eq_build).  With the faithful loops EVERY rule is exact, also when no_inputless_phony /
 hist_present are false.  The driver runs build / dbuild next to the faithful loop from the same state (old=): the builds in
-which they differ are counted, and "same acceptance, sub-sequence" is a selfcheck.  buildF_full (failing commands) and the
-crash model sit on dirty_now: their graphs get no input-less phony statement; dry_build only scans and is not affected.
+which they differ are counted, and "same acceptance, sub-sequence" is a selfcheck.  Failing commands, kills and interrupts are run by the faithful
+loops of HistFailFaithful.v (buildF_full_f, buildK_full_f, buildI_full_f), depfile-only histories by HistDepfileFaithful.fbuild_f,
+each with its original next to it (old=); dry_build only scans and is not affected.
 
 PARALLEL SCHEDULES (coq/Engine/HistParDefs.v par_run, theorems in Properties_C01par.v; used by props/c04.py and c01.py):
 plain histories whose builds run with -j 2/3/4/8 (and some -j1) and random completion orders.  The engine's `ev start` /
@@ -100,11 +101,9 @@ gcc, so manifests mix the two kinds; the depfiles on the disk are part of the mo
 step D<e> = the user removes the depfile: engine `step rm <depfile>`).  Compared in addition: per depfile-only statement the
 depfile exists in both or in neither and lists the same SET of names (the engine's text `out: names` canonicalised like
 tools/scanmodel.py does).  selfchecks only where the theorems are: frag_ABF (no deps = gcc), the side conditions, no
-depfile removed, no lost deps log, no tampered output.  fbuild has NO CleanNode-faithful variant (it re-scans: dirty_now_d), so
-the always-dirty deviation is back for these histories: below a statement that is dirty in every scan (it reads an input-less
-phony name, or one of its hidden reads is a missing source) the run-set rule is relaxed to engine <= model with the surplus
-below such a statement; exists / clean / log / times / deps / depfile are not compared for the outputs of those statements from
-then on (ninja prunes them and, where the listed restat finding applies, leaves them stale; fbuild re-runs them); COUNTED.
+depfile removed, no lost deps log, no tampered output.  The loop is HistDepfileFaithful.fbuild_f: every rule is exact (the two
+histories that needed "outputs of surplus statements are not compared" with fbuild -- ninja prunes a deps statement below an
+always-dirty restat statement and leaves it STALE, the listed restat finding; fbuild re-ran it -- now agree).
 
   check(ctx_or_None, seed, n, dry=0.0, fault=False, deps=False) -> (mismatches, stats)     mismatches: list of Mismatch (text, replay)
   python3 tools/histmodel.py <seed> <n> [--dry P] [--fault] [--deps] [--par] [--crash] [--keep DIR]      standalone
@@ -145,11 +144,10 @@ def run_model(lines, chunk=None, mode='hist'):
     return res
 
 # ------------------------------------------------------------------ generation (inside the fragment)
-def strip_graph(g, rnd=None, no_inputless_phony=False):
+def strip_graph(g, rnd=None):
     """what gen_graph adds regardless of the feature table and the model does not have"""
     for e in g.edges:
         e.pool = ''            # the console pool (scheduling only)
-        if no_inputless_phony and e.phony and not e.manifest_ins(): e.exp = [rnd.choice(sorted(g.sources))]
     return g
 
 GARBAGE_BASE = 10 ** 9        # model contents written by failing commands: GARBAGE_BASE + 1000 * k + node
@@ -175,7 +173,7 @@ def gen_history(rnd, sid, outside=False, dry=0.0, fault=False, deps=False, par=F
     if outside: feat['validations'] = 0.6
     wf_reads = True
     if deps: feat['deps'] = 0.6; wf_reads = rnd.random() < 0.75
-    g = strip_graph(engine.gen_graph(rnd, rnd.randrange(3, 13) if par else rnd.randrange(2, 10), feat, wf_reads), rnd, no_inputless_phony=fault)
+    g = strip_graph(engine.gen_graph(rnd, rnd.randrange(3, 13) if par else rnd.randrange(2, 10), feat, wf_reads), rnd)
     if deps: gcc_only(g, keep_depfile=(deps == 'depfile'))
     h = ec.Hist(sid, g)
     h.deps_mode = bool(deps); h.depfile_mode = (deps == 'depfile'); h.wf_reads = wf_reads; h.par_mode = bool(par)
@@ -303,7 +301,7 @@ def clone_hist(base, sid):
 def gen_kill_base(rnd, sid):
     """a history prefix in fragment AB (no input-less phony: the kill model sits on dirty_now) that ends right before the
     invocation that will be killed / interrupted; base.subject = the targets of that invocation"""
-    g = strip_graph(engine.gen_graph(rnd, rnd.randrange(2, 8), dict(FEAT, multiout=0.45)), rnd, no_inputless_phony=True)
+    g = strip_graph(engine.gen_graph(rnd, rnd.randrange(2, 8), dict(FEAT, multiout=0.45)), rnd)
     h = ec.Hist(sid, g)
     allouts = [o for e in g.edges for o in e.outs]
     pick = lambda: (rnd.sample(allouts, rnd.randrange(1, min(3, len(allouts)) + 1)) if rnd.random() < 0.3 else None)
@@ -608,23 +606,6 @@ def through_phony(g, prod, i, depth=0):
         return [x for j in p.exp + p.imp + p.oo for x in through_phony(g, prod, j, depth + 1)]
     return [p]
 
-def tainted_statements(g, sources):
-    """(only for the depfile-only model, whose build loop re-scans)  positions of the real statements that read (non-order-only
-    or hidden, through any statements) an output of a real statement that is dirty in EVERY scan: it reads an input-less phony
-    name (directly or through phony aliases), or one of its hidden reads is a source file that does not exist now"""
-    disc = lambda e: e.hidden if (e.deps or e.depfile) else []
-    ad = {x for e in g.edges for x in disc(e) if x in g.sources and x not in sources}
-    for e in g.edges:
-        if e.phony and (not e.manifest_ins() or any(i in ad for i in e.exp + e.imp)): ad |= set(e.outs)
-    tn = set(); res = set()
-    for k, e in enumerate(g.edges):
-        nonoo = e.exp + e.imp + disc(e)
-        if any(i in tn for i in nonoo):
-            tn |= set(e.outs)
-            if not e.phony: res.add(k)
-        elif not e.phony and any(i in ad for i in nonoo): tn |= set(e.outs)
-    return res
-
 def depends_on(g, f):
     """positions of the statements that depend on an output of statement f (transitively, inputs of every kind)"""
     outs = set(g.edges[f].outs); res = set(); changed = True
@@ -684,10 +665,6 @@ def compare_build(h, m, st, b, mb, prev_ok_same, nip, cnt, prev=None, flags=None
     if len(set(e_run)) != len(e_run): bad.append(('run-set', 'engine started a command twice: %s' % e_started))
     if e_run != m_run:
         if kind == 'dry': bad.append(('dry-list', 'commands listed by -n: engine %s, model %s' % (nm(e_run), nm(m_run))))
-        elif m.depfile_mode and set(e_run) <= set(m_run) and (set(m_run) - set(e_run)) <= tainted_statements(g, st.sources):
-            # fbuild re-scans (no faithful variant yet): below a statement that is dirty in every scan it re-runs what ninja prunes
-            cnt['builds where fbuild re-ran statements ninja pruned below an always-dirty one (known deviation, no faithful fbuild)'] += 1
-            cnt['... statements re-run by fbuild only'] += len(set(m_run) - set(e_run))
         else:
             bad.append(('run-set', 'commands %s: engine %s, model %s' % ('started' if kind == 'fault' else 'run', nm(e_run), nm(m_run))))
     # the model's order is the statement order; the engine's must respect the dependencies
@@ -737,10 +714,11 @@ def compare_build(h, m, st, b, mb, prev_ok_same, nip, cnt, prev=None, flags=None
         # (HistFaithfulProofs.build_f_trace_subset); they differ where dirty_now's re-scan re-runs what CleanNode prunes
         if mb['oldok'] != mb['ok']: bad.append(('selfcheck', 'model: build_f ok=%s, build ok=%s from the same state' % (mb['ok'], mb['oldok'])))
         it = iter(mb['old'])
-        if not all(x in it for x in mb['run']): bad.append(('selfcheck', 'model: build_f ran %s, no sub-sequence of what build runs %s' % (mb['run'], mb['old'])))
+        if mb['what'] == 'B' and not all(x in it for x in mb['run']): bad.append(('selfcheck', 'model: build_f ran %s, no sub-sequence of what build runs %s' % (mb['run'], mb['old'])))
         if mb['old'] != mb['run']:
-            cnt['builds where HistDefs.build / dbuild would re-run statements that build_f / dbuild_f (and ninja) prune'] += 1
-            cnt['... statements re-run by build only'] += len(mb['old']) - len(mb['run'])
+            lab = {'B': 'HistDefs.build / dbuild / fbuild', 'F': 'HistFailDefs.buildF_full', 'K': 'HistCrashDefs.buildK_full', 'I': 'HistCrashDefs.buildI_full'}[mb['what']]
+            cnt['builds where the original loop (%s) differs from the CleanNode-faithful one (and from ninja)' % lab] += 1
+            cnt['... statements the original loop alone would run'] += max(0, len(mb['old']) - len(mb['run']))
             if nip and not m.deps_mode: bad.append(('selfcheck', 'model: build_f and build differ with no_inputless_phony (build_f_eq_build): %s vs %s' % (mb['run'], mb['old'])))
     # failing build: exit status, which statement, containment, nothing recorded
     if kind == 'fault':
@@ -768,14 +746,7 @@ def compare_build(h, m, st, b, mb, prev_ok_same, nip, cnt, prev=None, flags=None
     # per node
     try: exp = g.clean_contents(st.sources)
     except RecursionError: exp = None
-    drift_out = set()
-    if m.depfile_mode:
-        # (fbuild only) what the surplus statements write is compared no further: ninja prunes them -- and leaves them STALE when
-        # the listed finding restat-prune-ignores-recorded-deps applies to them -- while fbuild re-runs them
-        flags.setdefault('drift', set()).update(tainted_statements(g, st.sources))
-        drift_out = {o for k_ in flags['drift'] for o in g.edges[k_].outs}
     for n in m.names:
-        if n in drift_out: continue
         mx, mq = mb['nodes'][n][:2]
         ex = n in b.files
         if ex != mx: bad.append(('exists', '%s after the build: engine %s, model %s' % (n, 'exists' if ex else 'missing', 'exists' if mx else 'missing')))
@@ -786,10 +757,8 @@ def compare_build(h, m, st, b, mb, prev_ok_same, nip, cnt, prev=None, flags=None
     # build-log entries and the time relations the dirty test reads: entry present, entry made by the current command line,
     # recorded mtime against the output's own mtime and against every non-order-only input's; output against input
     sgn = lambda a, b: (a > b) - (a < b)
-    if m.depfile_mode: flags.setdefault('drift', set()).update(tainted_statements(g, st.sources))
-    drift = flags.get('drift', set()) if m.depfile_mode else set()
     for k, e in enumerate(g.edges):
-        if e.phony or k in drift: continue
+        if e.phony: continue
         sn = b.snap.get(e.out0)
         if sn and sn.get('hash'): m.known_hash[e.eval_command()] = int(sn['hash'], 16)
         cur = m.known_hash.get(e.eval_command())
@@ -817,7 +786,7 @@ def compare_build(h, m, st, b, mb, prev_ok_same, nip, cnt, prev=None, flags=None
         # the depfiles of the depfile-only statements: on disk in both or in neither, listing the same set of names
         import scanmodel
         for k, e in enumerate(g.edges):
-            if not e.depfile or e.deps or e.phony or k in drift: continue
+            if not e.depfile or e.deps or e.phony: continue
             ef = b.files.get(e.depfile); mf = mb['df'].get(k)
             if (ef is not None) != (mf is not None):
                 bad.append(('depfile', 'depfile %s: engine %s, model %s' % (e.depfile, 'exists' if ef else 'missing', 'exists' if mf is not None else 'missing'))); continue
@@ -828,7 +797,6 @@ def compare_build(h, m, st, b, mb, prev_ok_same, nip, cnt, prev=None, flags=None
             elif set(pd[2]) != set(mf): bad.append(('depfile', 'depfile %s lists %s in the engine, %s in the model' % (e.depfile, sorted(set(pd[2])), sorted(set(mf)))))
     if m.deps_mode:
         for n in m.names:
-            if prod.get(n) is not None and m.by_out0.get(prod[n].out0) in drift: continue
             er = b.deps.get(n); mr = mb['nodes'][n][5]
             if (er is not None) != (mr is not None):
                 bad.append(('deps', 'deps record of %s: engine %s, model %s' % (n, 'present' if er else 'absent', 'present' if mr else 'absent'))); continue
@@ -844,7 +812,7 @@ def compare_build(h, m, st, b, mb, prev_ok_same, nip, cnt, prev=None, flags=None
         # on both sides (the clean rule above); counted by shape
         targets = st.targets or ec.default_targets(g)
         clo = g.closure(targets, with_vals=False)
-        unclean = {n for n in clo if n in mb['nodes'] and not mb['nodes'][n][1] and prod.get(n) is not None and n not in drift_out}
+        unclean = {n for n in clo if n in mb['nodes'] and not mb['nodes'][n][1] and prod.get(n) is not None}
         both = exp is not None and all((b.files.get(n, (0, None))[1]) != exp.get(n) for n in unclean)
         if unclean and both:
             started = set(e_started)
@@ -1074,7 +1042,7 @@ def hook(ctx, pid, dry=0.0, fault=False, deps=False, par=False, quick=400, thoro
         ctx.replay_file('hist-mismatch', x.replay)
     if len(mism) > 5: ctx.corr_broken.append('history model (HistDefs): %d more mismatching histories' % (len(mism) - 5))
     ctx.cov['hist_model_correspondence' + ('_parallel' if par else '') + ('_depfile' if deps == 'depfile' else '')] = stats
-    extra = [k for k in stats if k.startswith(('dry runs', 'failing builds', 'commands listed', 'successful builds', '... where', 'histories whose statements', 'builds where HistDefs', '... statements', 'schedule', 'builds with at',
+    extra = [k for k in stats if k.startswith(('dry runs', 'failing builds', 'commands listed', 'successful builds', '... where', 'histories whose statements', 'builds where the original', '... statements', 'schedule', 'builds with at',
                                                'deps records', 'inside, ', 'histories cut short', 'histories with a dep', 'histories mixing', 'depfiles', 'builds where fbuild', 'histories with rm-depfile'))]
     ctx.cov.setdefault('distribution', {})[key] = {k: stats.get(k, 0) for k in extra + [
         'histories', 'inside the fragment', 'outside the fragment (model verdict)',
@@ -1095,7 +1063,7 @@ def hook_crash(ctx, pid='C07', quick=150, thorough=1200, cap=10, key='hist_model
         ctx.replay_file('hist-mismatch', x.replay)
     if len(mism) > 5: ctx.corr_broken.append('history model (HistCrashDefs): %d more mismatching histories' % (len(mism) - 5))
     ctx.cov['hist_model_crash_correspondence'] = stats
-    keys = [k for k in stats if k.startswith(('engine crash points', 'interrupt', 'recovery builds', 'base histories', 'crash point', 'histories whose'))]
+    keys = [k for k in stats if k.startswith(('engine crash points', 'interrupt', 'recovery builds', 'base histories', 'crash point', 'histories whose', 'builds where the original', '... statements'))]
     ctx.cov.setdefault('distribution', {})[key] = {k: stats.get(k, 0) for k in keys + ['histories', 'builds compared', 'node comparisons', 'log entries compared',
                                                                                       'time relations compared', 'repeated builds compared (idle in both)', 'mismatching histories']}
     ctx.cov['traces_validated_against_model'] = ctx.cov.get('traces_validated_against_model', 0) + stats.get('builds compared', 0)
